@@ -80,6 +80,12 @@ Theorem C09_char_range_inc_rev_refines : forall dbg a b h,
   map Ok (deque_run h (rev (char_range_inc_spec a b))).
 Proof. exact char_range_inc_rev_refines. Qed.
 
+(** the hypotheses are satisfiable on both sides of the surrogate gap, and the range
+    across it has exactly the two neighbours of the gap *)
+Example C09_char_hypotheses_satisfiable :
+  is_scalar 55295 = true /\ is_scalar 57344 = true /\ char_range_inc_spec 55295 57344 = [55295; 57344].
+Proof. vm_compute. repeat split. Qed.
+
 (** the rank-based char spec is "the scalar values among a, a+1, ..", in increasing order *)
 Theorem C09_char_spec_is_scalar_filter : forall a b,
   is_scalar a = true -> is_scalar b = true ->
@@ -141,6 +147,13 @@ Theorem C09_range_from_at_max : forall t, wf t ->
   range_from_next true t (max_val t) = DebugPanic /\
   range_from_next false t (max_val t) = Ok (Some (max_val t, min_val t)).
 Proof. exact range_from_at_max. Qed.
+
+(** the char instance of the second half, spelled out: without debug assertions
+    [char::MAX..] yields char::MAX and continues at '\0' (std panics here in every profile;
+    reported as a finding) *)
+Example C09_char_range_from_wraps_without_debug_assertions :
+  range_from_take false Char 3 1114110 = ([1114110; 1114111; 0], Ok true).
+Proof. vm_compute. reflexivity. Qed.
 
 (** without debug assertions the prefix may run up to and including MAX *)
 Theorem C09_range_from_prefix_release : forall t, wf t -> forall k a,
